@@ -87,6 +87,14 @@ func c10r7RunCase(mr, mq int, reqs []c10r7Req) (res string, skewed bool) {
 		switch q.cause {
 		case "ok", "e5", "rx", "rs", "to", "tm", "dr", "cc":
 			a := ex.WaitAttempt(0)
+			if a == nil {
+				// c10t9: 400 ms without the first attempt: a proxy that will never make one (every goroutine parked: `m?`, a
+				// violation as before) or a worker the machine has not run yet (the wait is extended)
+				hx.PatientWait("flg first attempt", 400*time.Millisecond, 20*time.Second, nil, func() bool {
+					a = ex.WaitAttemptFor(0, 0)
+					return a != nil
+				})
+			}
 			if a == nil || a.Failed != "" {
 				mid = "m?"
 				break
@@ -112,6 +120,17 @@ func c10r7RunCase(mr, mq int, reqs []c10r7Req) (res string, skewed bool) {
 						}
 						time.Sleep(500 * time.Microsecond)
 					}
+					if next == nil && !ex.Done() { // c10t9: 2 s without the retry's attempt and the exchange not over
+						hx.PatientWait("flg retry attempt", 400*time.Millisecond, 20*time.Second, nil, func() bool {
+							if ex.Done() {
+								return true
+							}
+							if as := ex.UpstreamAttempts(); len(as) > k+1 {
+								next = ex.WaitAttemptFor(k+1, 0)
+							}
+							return next != nil
+						})
+					}
 					if next == nil || next.Failed != "" {
 						break
 					}
@@ -127,7 +146,10 @@ func c10r7RunCase(mr, mq int, reqs []c10r7Req) (res string, skewed bool) {
 				f.ConnClose()
 			}
 		}
-		ex.WaitDone(2500 * time.Millisecond)
+		if !ex.WaitDone(2500 * time.Millisecond) {
+			// c10t9: as above — `done=0` stays the outcome of a request that nothing in the process is going to finish
+			hx.PatientWait("flg request done", 500*time.Millisecond, 20*time.Second, nil, ex.Done)
+		}
 		ex.WaitQuiescentFor(12 * time.Millisecond)
 		done := "0"
 		if ex.Done() {
@@ -144,6 +166,8 @@ func c10r7RunCase(mr, mq int, reqs []c10r7Req) (res string, skewed bool) {
 // RunFlags emits the `flg` cases: every end cause with every flag set in every phase (packed four requests to a
 // fixture), then n random sequences.
 func RunFlags(c *hx.Ctx, n int) {
+	flgRan, flgDropped := 0, 0
+	hx.Calibrate()
 	rng := hx.NewRng(c.Seed*0x9E3779B97F4A7C15 + 0xC10F) // own stream: the other kinds draw from c.Rng as before
 	emit := func(mr, mq int, reqs []c10r7Req) {
 		var toks []string
@@ -173,8 +197,13 @@ func RunFlags(c *hx.Ctx, n int) {
 			c.Count("flg.skew.rerun")
 			impl, skewed = c10r7RunCase(mr, mq, reqs)
 		}
+		flgRan++
 		if skewed {
 			c.Count("flg.skew.dropped")
+			// c10t9: the share of dropped cases is bounded: above 2 % the run says nothing about the code
+			if flgDropped++; flgDropped > 2 && flgDropped*50 > flgRan+100 {
+				c.TooSlow(fmt.Sprintf("c10 flg: %d of %d cases dropped as timing skew", flgDropped, flgRan))
+			}
 			return
 		}
 		c.Emit("C10", fmt.Sprintf("flg mr=%d,mq=%d %s", mr, mq, strings.Join(toks, ";")), impl)
